@@ -271,6 +271,70 @@ void run_maps() {
     sim::set_nontrivial(true);
 }
 
+
+// Growth of the sparse mmap/file vectors: more than 2^20 entries so that mmap_vector_base::reserve()/resize() has to
+// grow the mapping (mremap for anonymous, munmap+ftruncate+mmap for file backed vectors) while entries are appended.
+// The model is a formula (id = k*stride + offset <-> inserted), probes are sampled.
+void run_growth() {
+    const FdCleanup fd_cleanup;
+    simfs::reset();
+    static const char* types[] = {"sparse_mmap_array", "sparse_file_array", "dense_mmap_array", "dense_file_array"};
+    const std::string t = types[choose(S_CONF, 4)];
+    const bool dense = is_dense(t);
+    const id_type stride = dense ? 1 + choose(S_WORK, 2) : 1 + choose(S_WORK, 5);
+    const id_type offset = choose(S_WORK, 7);
+    const id_type n = (1ULL << 20) + 1 + choose(S_WORK, dense ? 1200000 : 300000);
+    const uint32_t order = choose(S_WORK, 3); // 0 ascending, 1 descending, 2 two interleaved halves
+    const uint32_t salt = choose(S_WORK, 1000);
+    const bool move_always = choose(S_CONF, 3) != 0;
+    sim::add_to_signature(n * 31 + stride * 7 + offset + order * 1000003ULL + (dense ? 5 : 0));
+    sim::set_sample("{\"type\":\"" + t + "\",\"entries\":" + std::to_string(n) + ",\"stride\":" + std::to_string(stride) + ",\"order\":" + std::to_string(order) + ",\"move_always\":" + (move_always ? "true" : "false") + "}");
+    sim::RunConfig cfg;
+    cfg.preemptive = false;
+    sim::begin_run(cfg);
+    sim::set_map_policy(move_always, -1);
+    try {
+        std::unique_ptr<map_type> m = factory_type::instance().create_map(t);
+        auto id_of = [&](id_type k) { return k * stride + offset; };
+        if (order == 0) {
+            for (id_type k = 0; k < n; ++k) { m->set(id_of(k), loc_for(id_of(k), salt)); }
+        } else if (order == 1) {
+            for (id_type k = n; k-- > 0;) { m->set(id_of(k), loc_for(id_of(k), salt)); }
+        } else {
+            for (id_type k = 0; k < n; k += 2) { m->set(id_of(k), loc_for(id_of(k), salt)); }
+            for (id_type k = 1; k < n; k += 2) { m->set(id_of(k), loc_for(id_of(k), salt)); }
+        }
+        m->sort();
+        std::string diff;
+        for (int i = 0; i < 3000 && diff.empty(); ++i) {
+            id_type id = 0;
+            const uint32_t how = choose(S_WORK, 4);
+            if (how == 0) { id = id_of(choose(S_WORK, static_cast<uint32_t>(n))); }
+            else if (how == 1) { id = id_of((1ULL << 20) - 3 + choose(S_WORK, 7)); }              // around the first growth step
+            else if (how == 2) { id = id_of(n - 1) - 3 + choose(S_WORK, 8); }                     // around the end
+            else { id = choose(S_WORK, static_cast<uint32_t>(std::min<id_type>(id_of(n) + 1000, 0xfffffff0ULL))); }
+            const bool inserted = id >= offset && (id - offset) % stride == 0 && (id - offset) / stride < n;
+            const osmium::Location want = inserted ? loc_for(id, salt) : osmium::index::empty_value<osmium::Location>();
+            const osmium::Location got = m->get_noexcept(id);
+            if (got != want) {
+                diff = "get_noexcept(" + std::to_string(id) + ") = (" + std::to_string(got.x()) + "," + std::to_string(got.y()) + "), expected " + (inserted ? "(" + std::to_string(want.x()) + "," + std::to_string(want.y()) + ")" : std::string{"not found"});
+            }
+        }
+        if (!diff.empty()) {
+            sim::report("oracle", "C12.growth/" + t + "/lookup-differs-from-model", t + " with " + std::to_string(n) + " entries (stride " + std::to_string(stride) + ", order " + std::to_string(order) + "): " + diff);
+        }
+        if (m->size() != n && !dense) {
+            sim::report("oracle", "C12.growth/" + t + "/size", t + " reports size " + std::to_string(m->size()) + " after " + std::to_string(n) + " insertions");
+        }
+        sim::probe("sparse or dense mmap/file vector grew beyond 2^20 entries while filling");
+    } catch (const std::exception& e) {
+        sim::report("oracle", "C12.growth/" + t + "/unexpected-exception", t + " threw " + e.what());
+    }
+    sim::end_run();
+    sim::set_map_policy(false, -1);
+    sim::set_nontrivial(true);
+}
+
 // growing the backing file fails: std::system_error, nothing else
 void run_nospace() {
     const FdCleanup fd_cleanup;
@@ -398,6 +462,7 @@ int main(int argc, char** argv) {
     const int rc = sim::worker_main(argc, argv, [](const sim::RunInfo& info) {
         if (info.mode == "maps") { run_maps(); }
         else if (info.mode == "nospace") { run_nospace(); }
+        else if (info.mode == "growth") { run_growth(); }
         else if (info.mode == "handler") { run_handler(); }
         else { sim::report("harness-error", "harness/unknown-mode", info.mode); }
     });
